@@ -111,7 +111,14 @@ def gen_case(rng, cfg):
             v = "N" if rng.random() < 0.08 else str(rng.randint(0, 9))
             ops.append(["set", str(c["id"])] + g.spelled_args(c["nparams"], c.get("defaults") or [], positional=True)
                        + ["=", v])
-            if g.default_p and rng.random() < 0.4:
+            if cfg.get("same_p") and rng.random() < cfg["same_p"]:
+                # the element is assigned the very value it holds (`cells[k] = cells[k]`, pasting a value over the
+                # calculation that produced it): aimed at an element that was evaluated before
+                ids = {x["id"] for x in cells if x["cached"]}
+                prev = [o for o in ops[:-1] if o[0] == "eval" and int(o[1]) in ids]
+                if prev:
+                    ops[-1] = ["set"] + respell(rng, cells, rng.choice(prev), positional=True)[1:] + ["=", "same"]
+            elif g.default_p and rng.random() < 0.4:
                 # the value edit aims at an element that was requested before, under another spelling
                 prev = [o for o in ops[:-1] if o[0] in ("eval", "set", "clearat") and o[1] == str(c["id"])]
                 if prev:
